@@ -283,6 +283,20 @@ def run_c04(ctx):
         for outer in (_R("Imply", mid, x_), _R("Not", mid), _R("XNor", mid, x_), _R("Xor", mid, x_), _R("Imply", x_, _R("Not", mid)), _R("All", _R("Not", mid), x_)):
             cases.append({"recipe": outer, "src": "handmade", "vias": ["ctor", "json", "ctor_sub"]})
     ctx.region("negated_mixed_threshold_depth3")
+    # a threshold proposition over exactly ONE sub-proposition below a negating connective
+    for C in (_R("Any", p_, q_), _R("All", p_, q_), _R("Any", p_, q_, id="C")):
+        for w in (_R("AtMost", C, v=0), _R("AtMost", C, v=1), _R("AtLeast", C, v=2, s=1), _R("AtLeast", C, v=1, s=0), _R("All", C), _R("Any", C), _R("AtMost", C, v=1, id="W")):
+            for outer in (_R("Not", w), _R("Imply", w, x_), _R("Imply", x_, _R("Not", w)), _R("XNor", w, x_)):
+                cases.append({"recipe": outer, "src": "handmade", "vias": ["ctor", "json"]})
+    ctx.region("negated_single_compound_child")
+    # two models of one process that differ two levels below a negated proposition only, under the same explicit id
+    for deep1, deep2 in ((_R("All", a_, b_, id="B"), _R("Any", a_, b_, id="B")), (_R("AtLeast", a_, b_, p_, v=2, s=1, id="B"), _R("Any", a_, b_, p_, id="B")),
+                         (_R("Xor", a_, b_, id="B"), _R("All", a_, b_, id="B"))):
+        for mk in (lambda d: _R("Not", _R("All", _R("Any", d, p_), q_)), lambda d: _R("Imply", _R("Any", _R("All", d, p_), q_), x_),
+                   lambda d: _R("XNor", _R("Any", d, p_, id="K"), q_), lambda d: _R("All", _R("Not", _R("Any", _R("All", d, q_), p_)), x_)):
+            cases.append({"recipe": mk(deep2), "prelude": [mk(deep1)], "src": "handmade", "vias": ["ctor", "json"]})
+            cases.append({"recipe": mk(deep1), "prelude": [mk(deep2)], "src": "handmade", "vias": ["ctor"]})
+    ctx.region("edited_twin_two_levels_below_a_negation")
     rc = random_cases(ctx, 300 if q else 3000, ["kids>=4", "depth>=3", "explicit_id", "generated_id"] + ["cls_" + c for c in ALLC],
                       ints=False, documented=True, max_box=64, max_kids=5)
     for c in rc: c["vias"] = ["ctor", "json", "from_list", "cicJE", "ctor_sub", "ctor_map"]
@@ -1265,6 +1279,15 @@ def run_c09(ctx):
     det = [{"probes": probes, "noise": noise[i:] + noise[:i]} for i in range(0, len(noise), 4)]
     for ev_ in ctx.pmap_fresh(drivers.drv_determinism, det, batch=1):
         for e in ev_: ctx.add_event(e, {"driver": "drv_determinism"})
+    # ... and across processes: the probes in a process that did nothing else against the probes after other use of the library
+    # (what is built FIRST in a process must not decide what the same constructor calls give)
+    probes2 = probes + [_R("AtLeast", a_, b_, v=-1, s=0), _R("All", _R("AtLeast", a_, b_, v=-1, s=0), c_), _R("AtLeast", a_, b_, c_, v=1, s=0), _R("Any", a_, b_)]
+    noise2 = noise + [_R("AtMost", a_, b_, v=1), _R("Not", _R("AtLeast", a_, b_, v=2, s=1)), _R("XNor", a_, b_), _R("AtLeast", a_, b_, c_, v=1, s=1), _R("Xor", a_, b_)]
+    parts = ctx.pmap_fresh(drivers.drv_determinism, [{"probes": probes2, "noise": [], "noise_first": True}] +
+                           [{"probes": probes2, "noise": noise2[i:] + noise2[:i], "noise_first": True} for i in range(0, len(noise2), 3)], batch=1)
+    base_ = parts[0][0]["later"]
+    for ev_ in parts[1:]:
+        ctx.add_event({"op": "determinism", "first": base_, "later": ev_[0]["later"], "across_processes": True}, {"driver": "drv_determinism"})
     ctx.region("module_level_state_probe")
     cat = api_catalog()
     pairs = [(cat["M1"], cat["CfgD"]), (cat["CfgD"], cat["CfgP"]), (cat["Cfg3"], cat["Cfg4"]), (cat["G1"], cat["M2"]), (cat["M3"], cat["M3"]), (cat["M4"], cat["M1"])]
